@@ -198,12 +198,12 @@ def gen_step(rng, pool):
         i = rng.randrange(-shape[d], shape[d])
         return Step("select", [d, i], [v], lambda x, d=d, i=i: x.select(d, i), "exact")
     if choice == "slice" and r >= 1:
-        d = rng.randrange(0, r)
+        d = rng.randrange(-r, r)   # aten passes dims as written: negative ones included
         a = rng.randrange(-shape[d] - 1, shape[d] + 1)
         b = rng.randrange(-shape[d] - 1, shape[d] + 2)
         st = rng.choice([1, 1, 2, 3])
         if rng.random() < 0.3:   # python indexing: torch decides itself whether a slice op is dispatched or an alias is taken (not modelled)
-            idx = [slice(None)] * d + [slice(a, b, st)]
+            idx = [slice(None)] * (d % r) + [slice(a, b, st)]
             return Step("getitem", [d, a, b, st], [v], lambda x, idx=tuple(idx): x[idx], "exact", model=False)
         return Step("slice", [d, a, b, st], [v], lambda x, d=d, a=a, b=b, st=st: torch.ops.aten.slice.Tensor(x, d, a, b, st), "exact")
     if choice == "unsqueeze":
